@@ -121,6 +121,18 @@ CHECKS['C16'] = {
     'design': 'DESIGN.md section 3 C16',
 }
 
+CHECKS['C03'] = {
+    'technique': 'machine-checked proof in Coq (publisher/subscriber model, all operation sequences and configurations, codec/compression by contract) + end-to-end runs over loopback QUIC',
+    'text': ("PROVED: for any payload codec and compression pair satisfying their round-trip contract, batching off or on with any size, ANY sequence of send/feed/flush operations and "
+             "ANY expiry pattern of the batching interval, the subscriber run on what the publisher hands to the transport after finish() yields exactly the accepted items, in order, "
+             "each once; finish() leaves nothing in the batch or in the framed writer's buffer. The batch codec inside is the C05 one (with explicit panics). TIED to the code by running "
+             "the real Publisher -> real server -> real Subscriber over loopback QUIC (certificates from the repository's generator) across codecs x 8 compression settings x levels x "
+             "batch sizes/intervals x send/feed x counts around multiples of the batch size, plus a raw subscriber recording frames that the extracted model's subscriber must decode "
+             "to the same items (uncompressed configurations)."),
+    'note': "Codec/compression are contracts (checked under C14). FramedWrite buffering, SinkExt::send/feed, QUIC ordering, server pass-through (C01) modelled/assumed. Interval expiry is adversarial in the theorem.",
+    'design': 'DESIGN.md section 3 C03',
+}
+
 ALL = ['C%02d' % i for i in range(1, 18)]
 
 PENDING_REASON = "check under construction in this session (model and harness not yet committed); it will be claimed once its check is committed"
